@@ -1434,20 +1434,34 @@ def _chain(env, fields, upto, first_by_setattr):
 
 
 def _eval_history_chain(col, env, scenario, case, sig):
+    """["history-chain", way of the first step, columns (, op)]: without op every chunk of the chain but the last one is
+    observed (the later replace calls must not show in it); with op (a second operation without a field argument) that
+    operation is applied to every chunk of the chain - they carry 1, 2, ... user-set columns - and all are observed"""
     first, fields = scenario[1], scenario[2]
+    op = scenario[3] if len(scenario) > 3 else None
     by_setattr = first == "setattr"
     ts = _chain(env, fields, len(fields), by_setattr)
     _use(env, ts[-1])
     ok = True
-    for j in range(1 if by_setattr else 0, len(fields)):           # every chunk of the chain but the last one
+    lo = 1 if by_setattr else 0
+    applied = True
+    if op:
+        f = _history_ops(env)[op]
+        for j in range(max(lo, 1), len(fields) + 1):
+            try:
+                _use(env, f(ts[j], (lambda j: (lambda: _chain(env, fields, j, by_setattr)[j]))(j)))
+            except Exception:
+                applied = False
+    name = "replace-chain" + ("+" + _op_class(op) if op else "")
+    for j in range(lo, len(fields) + (1 if op else 0)):
         key = ("chain", by_setattr, tuple(fields[:j]))         # what chunk j is depends on the first j steps only
         if key not in env._hist_base:
             env._hist_base[key] = _observe(env, _chain(env, fields, j, by_setattr)[j])
         base = env._hist_base[key]
         got = _observe(env, ts[j])
-        ok = _compare_obs(col, case, env.fmt, "replace-chain", base, got,
-                          "chunk number %d of the replace chain over %r" % (j, fields)) and ok
-    return True
+        ok = _compare_obs(col, case, env.fmt, name, base, got,
+                          "chunk number %d of the replace chain over %r%s" % (j, fields, ", after %s on every chunk" % op if op else "")) and ok
+    return applied
 
 
 def _ring(fields, both_orders=True):
@@ -1480,6 +1494,8 @@ HISTORY_CHEAP = ("bed", "bed6", "bdg", "fastq", "fastq-codons", "gfa", "sizes", 
 HISTORY_OPS_SHORT = ("getitem/mask", "getitem/int", "tolist", "get_data_object",
                      "replace-nothing", "getitem/reverse", "concatenate/same-history", "write", "get_reverse_complement", "translate_dna_to_protein")
 HISTORY_OPS_NOT_IN_QUICK = ("repr", "iter", "toiter", "len", "getitem/int-last", "getitem/all", "write/slice", "concatenate/fresh-first")
+HISTORY_CHAIN_OPS = ("getitem/tail", "concatenate/same-history", "write", "getitem/mask", "tolist", "concatenate/with-itself", "replace-nothing",
+                     "get_reverse_complement")
 HISTORY_EXTRAS = (("replace", ["observe-first"]), ("slice-setattr", []), ("replace", ["read-first"]), ("slice-replace", []),
                   ("slice-setattr", ["read-first"]))
 
@@ -1573,6 +1589,21 @@ def history_scenarios(env, tier, full_file):
             yield ["history-chain", "replace", ch]
             if cls != "single":
                 yield ["history-chain", "setattr", ch]
+    # (e) a second operation without a field argument on chunks that carry SEVERAL user-set columns (the chunks of a chain)
+    if cls == "full":
+        plan = [(S[:3], HISTORY_CHAIN_OPS), (S[::-1][:3], HISTORY_CHAIN_OPS)]
+    elif cls == "cheap":
+        plan = [(S[:3], HISTORY_CHAIN_OPS[:4])]
+    elif cls == "medium":
+        plan = [(S[:2], HISTORY_CHAIN_OPS[:2])]
+    elif cls == "sub":
+        plan = [(S[:2], HISTORY_CHAIN_OPS[len(env.lines) % 2:][:1])]
+    else:
+        plan = []
+    for n_plan, (ch, chain_ops) in enumerate(plan):
+        if len(ch) >= 2 and (n_plan == 0 or ch != plan[0][0]):
+            for i, op in enumerate(o for o in chain_ops if o in ops or cls != "full"):
+                yield ["history-chain", M[(i + n_plan) % 2], ch, op]
 
 
 LIGHT_IN_QUICK = ("fastq-codons", "vcf-info-string", "vcf-gt-phased", "vcf-gt-haplotype", "vcf-gt-strings", "vcf-noheader", "gff", "bed12-trailing-comma")
